@@ -121,6 +121,9 @@ pub assume_specification<K, V, S, A: std::alloc::Allocator, F: FnMut(&K, &mut V)
 
 // ---- SHIMS: Route and RouterConfig are opaque here; the accessors name the trigger fields of a route
 //@@ item src/router_config.rs :: struct RouterConfig
+// RouterConfig::default (src/router_config.rs, pinned): a named constant here
+pub uninterp spec fn default_config() -> RouterConfig;
+impl RouterConfig { #[verifier::external_body] pub fn default() -> (r: Self) ensures r == default_config() { unimplemented!() } }
 #[verifier::external_body] #[verifier::accept_recursive_types(T)] pub struct Route<T> { h: std::marker::PhantomData<T> }
 pub type RouteRef<T> = Arc<Route<T>>;
 pub uninterp spec fn rid<T>(r: Route<T>) -> Seq<char>;
@@ -3157,6 +3160,7 @@ pub proof fn c12_path_cache<T>(a: PathAndQueryMatcher<T>, b: PathAndQueryMatcher
 { c02_path_rebuild(a, b, q); }
 // ---- PINS: the loop `for v in tree.iter_mut()` of HostMatcher::cache is summarised by vf_tree_iter_mut_st (assumed visiting contract); the functions
 // that implement that iteration are tied to their present text
+//@@ pin src/router_config.rs :: impl DefaultforRouterConfig / fn default = 449a1ef3085f
 //@@ pin src/regex_radix_tree/tree.rs :: impl <V>UniqueRegexTreeMap<V> / fn iter_mut = 9c3549883f40
 //@@ pin src/regex_radix_tree/tree.rs :: impl <V>RegexTreeMap<V> / fn iter_mut = 7a03d47f8502
 //@@ pin src/regex_radix_tree/item.rs :: impl <V>Item<V> / fn iter_mut = 89a7b031dc68
@@ -3257,8 +3261,20 @@ pub proof fn c01_once_path<T>(m: PathAndQueryMatcher<T>, x: RouteRef<T>)
     }
 }
 impl<T> Router<T> {
+    // the other two ways to make an empty router: same empty state, with the given / the default configuration
+    //@@ fn src/router/mod.rs :: impl <T>Router<T> / fn from_config -> r
+    //@| ensures r.wf(), r.routes@.len() == 0, forall|x: RouteRef<T>| !r.live(x), *r.config == config,
+    //@| entry broadcast use group_hash_axioms; broadcast use axiom_string_key_model;
+    // R7: `impl Default for Router<T>` verified as an inherent method
+    //@@ fn src/router/mod.rs :: impl <T>DefaultforRouter<T> / fn default -> r
+    //@| ensures r.wf(), r.routes@.len() == 0, forall|x: RouteRef<T>| !r.live(x), *r.config == default_config(),
+    //@| entry broadcast use group_hash_axioms; broadcast use axiom_string_key_model;
+    // the id table, as it is
+    //@@ fn src/router/mod.rs :: impl <T>Router<T> / fn routes -> r
+    //@| ensures *r == self.routes,
+
     //@@ fn src/router/mod.rs :: impl <T>Router<T> / fn from_arc_config -> r
-    //@| ensures r.wf(), r.routes@.len() == 0, forall|x: RouteRef<T>| !r.live(x),
+    //@| ensures r.wf(), r.routes@.len() == 0, forall|x: RouteRef<T>| !r.live(x), r.config == config,
     //@| entry broadcast use group_hash_axioms; broadcast use axiom_string_key_model;
 
     // a rule with a fresh id becomes live; nothing else changes
